@@ -3,7 +3,7 @@
 From Coq Require Import List NArith ZArith Bool.
 Import ListNotations.
 From LV Require Import Model.Base Model.Template Model.Eval Model.Derived Model.EvalRun
-  Proofs.BaseProofs Proofs.EvalProofs.
+  Proofs.BaseProofs Proofs.EvalProofs Proofs.C09Proofs Proofs.C04Proofs.
 
 Section OptionResolution.
   Variable S : Type.
@@ -22,6 +22,21 @@ Section OptionResolution.
     lookup k (JObj o) = Found raw -> resolve rfuel o raw = ROk j ->
     exists l, eval (EOption k dflt None) o s = (Ok (VJ j), s, l) /\ forallb is_read l = true.
   Proof. exact (eval_option_present S mem_find mem_store cfg ucall rfuel site_ok). Qed.
+
+  (** … for a present value WITHOUT templated strings anywhere inside ([plain_json], the
+      predicate of C09): the value as stored, only the escapes [\{] [\}] of its strings
+      replaced ([unesc_json]); whatever the default; the exact log is the one read of [k].
+      Every falsy value (None, False, 0, '', [], {}) is such a value. *)
+  Theorem C04_present_plain_value_wins : forall k dflt raw o s,
+    rfuel <> 0%nat -> lookup k (JObj o) = Found raw -> plain_json raw = true ->
+    eval (EOption k dflt None) o s = (Ok (VJ (unesc_json raw)), s, [EvRead k true]).
+  Proof. exact (present_plain_value_wins S mem_find mem_store cfg ucall rfuel site_ok). Qed.
+
+  (** … which is the stored value itself when it holds no escape token *)
+  Theorem C04_present_plain_escfree_value_wins : forall k dflt raw o s,
+    rfuel <> 0%nat -> lookup k (JObj o) = Found raw -> plain_json raw = true -> esc_free raw = true ->
+    eval (EOption k dflt None) o s = (Ok (VJ raw), s, [EvRead k true]).
+  Proof. exact (present_plain_escfree_value_wins S mem_find mem_store cfg ucall rfuel site_ok). Qed.
 
   (** … and when the present value references an absent key, the error names THAT key; the
       default is not used (this was defect D5, repaired by fix 634ec72). *)
@@ -44,17 +59,120 @@ Section OptionResolution.
     eval (EOption k None dom) o s = (Err (CKey k) true, s, [EvRead k false]).
   Proof. exact (eval_option_absent_nodefault S mem_find mem_store cfg ucall rfuel site_ok). Qed.
 
-  (** A value outside a declared domain is never returned. *)
+  (** The domain.  An Option with a domain IS the Option without it (present key / default /
+      missing-key error, above), THEN the domain expression evaluated under the same options in
+      the state reached, THEN the membership check of the value; every failure is an
+      EvaluationError. *)
+  Theorem C04_domain_is_check_after_resolution : forall k dflt de o s,
+    eval (EOption k dflt (Some de)) o s =
+      match eval (EOption k dflt None) o s with
+      | (Ok v, s0, l0) =>
+          match eval de o s0 with
+          | (Ok d, s1, l1) =>
+              match in_domain S ucall d v s1 with
+              | (Ok _, s2, l2) => (Ok v, s2, l0 ++ l1 ++ l2)
+              | (Err c _, s2, l2) => (Err c true, s2, l0 ++ l1 ++ l2)
+              end
+          | (Err c _, s1, l1) => (Err c true, s1, l0 ++ l1)
+          end
+      | (Err c ee, s0, l0) => (Err c true, s0, l0)
+      end.
+  Proof. exact (domain_is_check_after_resolution S mem_find mem_store cfg ucall rfuel site_ok). Qed.
+
+  (** the membership check, per kind of evaluated domain [d]:
+      - a container (list / tuple / iterable value, JSON list): [v in d], else DomainError;
+      - a predicate (function value): [bool(d(v))], DomainError when falsy, the predicate's own
+        failure when it raises;
+      - anything else is "not a valid domain": labrea warns and ACCEPTS the value. *)
+  Theorem C04_in_domain_container : forall d els v s,
+    is_fun d = false -> elements_of d = Some els ->
+    in_domain S ucall d v s =
+      (if existsb (fun x => value_eq v x) els then (Ok tt, s, []) else (Err CDomain false, s, [])).
+  Proof. exact (in_domain_container S ucall). Qed.
+  Theorem C04_in_domain_predicate : forall f pre post v s,
+    in_domain S ucall (VF f pre post) v s =
+      match call_value S ucall (VF f pre post) v s with
+      | (Ok b, s1, l1) => if truthy b then (Ok tt, s1, l1) else (Err CDomain false, s1, l1)
+      | (Err c ee, s1, l1) => (Err c ee, s1, l1)
+      end.
+  Proof. exact (in_domain_predicate S ucall). Qed.
+  Theorem C04_in_domain_invalid : forall d v s,
+    is_fun d = false -> elements_of d = None -> in_domain S ucall d v s = (Ok tt, s, []).
+  Proof. exact (in_domain_invalid S ucall). Qed.
+
+  (** [dom_accepts d v s s' l] spells the successful check out: predicate -> its call returns a
+      truthy value (ending in [s'] with log [l]); container -> [v] is among its elements (store
+      untouched, nothing logged); invalid domain -> accepted (store untouched, nothing logged) *)
+  Theorem C04_dom_accepts_spec : forall d v s s' l,
+    in_domain S ucall d v s = (Ok tt, s', l) <-> dom_accepts S ucall d v s s' l.
+  Proof. exact (in_domain_ok_iff S ucall). Qed.
+
+  (** "A value outside a declared domain is never returned" — and a value inside it is: the
+      Option with a domain returns [v] IFF the Option without it returns [v], the domain
+      evaluates (in the state reached, under the same options) to some [d], and [d] accepts [v];
+      stores and logs chained. *)
+  Theorem C04_domain_returns_iff : forall k dflt de o s v s' l,
+    eval (EOption k dflt (Some de)) o s = (Ok v, s', l) <->
+    exists s0 l0 d s1 l1 l2,
+      eval (EOption k dflt None) o s = (Ok v, s0, l0) /\
+      eval de o s0 = (Ok d, s1, l1) /\
+      dom_accepts S ucall d v s1 s' l2 /\ l = l0 ++ l1 ++ l2.
+  Proof. exact (domain_returns_iff S mem_find mem_store cfg ucall rfuel site_ok). Qed.
+
   Theorem C04_domain_sound : forall k dflt de o s v s' l,
     eval (EOption k dflt (Some de)) o s = (Ok v, s', l) ->
-    exists d s1 s2 l1, eval de o s1 = (Ok d, s2, l1) /\ accepts S ucall d v s2.
-  Proof. exact (eval_option_domain_sound S mem_find mem_store cfg ucall rfuel site_ok). Qed.
+    exists s0 l0 d s1 l1 l2,
+      eval (EOption k dflt None) o s = (Ok v, s0, l0) /\
+      eval de o s0 = (Ok d, s1, l1) /\
+      dom_accepts S ucall d v s1 s' l2 /\ l = l0 ++ l1 ++ l2.
+  Proof.
+    exact (fun k dflt de o s v s' l =>
+             proj1 (domain_returns_iff S mem_find mem_store cfg ucall rfuel site_ok k dflt de o s v s' l)).
+  Qed.
+
+  (** closed forms: container domain — returned iff it is an element, else [Err CDomain] (an
+      EvaluationError); predicate domain — returned iff the predicate's result is truthy *)
+  Theorem C04_domain_container : forall k dflt de o s v s0 l0 d els s1 l1,
+    eval (EOption k dflt None) o s = (Ok v, s0, l0) ->
+    eval de o s0 = (Ok d, s1, l1) -> is_fun d = false -> elements_of d = Some els ->
+    eval (EOption k dflt (Some de)) o s =
+      (if existsb (fun x => value_eq v x) els then Ok v else Err CDomain true, s1, l0 ++ l1).
+  Proof. exact (domain_container S mem_find mem_store cfg ucall rfuel site_ok). Qed.
+  Theorem C04_domain_predicate : forall k dflt de o s v s0 l0 f pre post s1 l1,
+    eval (EOption k dflt None) o s = (Ok v, s0, l0) ->
+    eval de o s0 = (Ok (VF f pre post), s1, l1) ->
+    eval (EOption k dflt (Some de)) o s =
+      match call_value S ucall (VF f pre post) v s1 with
+      | (Ok b, s2, l2) => (if truthy b then Ok v else Err CDomain true, s2, l0 ++ l1 ++ l2)
+      | (Err c _, s2, l2) => (Err c true, s2, l0 ++ l1 ++ l2)
+      end.
+  Proof. exact (domain_predicate S mem_find mem_store cfg ucall rfuel site_ok). Qed.
+
+  (** Option.set then evaluate: after [Option.set(options, v)] with a name-only key and a
+      non-mapping, template-free value, the Option (no default, no domain) evaluates to [v] *)
+  Theorem C04_set_then_evaluate : forall k v o s,
+    rfuel <> 0%nat ->
+    k <> [] -> forallb is_name k = true -> wf_json v = true -> (forall m, v <> JObj m) ->
+    plain_json v = true ->
+    eval (EOption k None None) (set_option k v o) s = (Ok (VJ (unesc_json v)), s, [EvRead k true]).
+  Proof. exact (set_then_evaluate S mem_find mem_store cfg ucall rfuel site_ok). Qed.
 End OptionResolution.
 Print Assumptions C04_present_key_wins.
 Print Assumptions C04_present_key_missing_reference.
 Print Assumptions C04_absent_key_default.
 Print Assumptions C04_absent_key_no_default.
+Print Assumptions C04_present_plain_value_wins.
+Print Assumptions C04_present_plain_escfree_value_wins.
+Print Assumptions C04_domain_is_check_after_resolution.
+Print Assumptions C04_in_domain_container.
+Print Assumptions C04_in_domain_predicate.
+Print Assumptions C04_in_domain_invalid.
+Print Assumptions C04_dom_accepts_spec.
+Print Assumptions C04_domain_returns_iff.
 Print Assumptions C04_domain_sound.
+Print Assumptions C04_domain_container.
+Print Assumptions C04_domain_predicate.
+Print Assumptions C04_set_then_evaluate.
 
 (** Option.set(options, value) = mix(options, {dotted key: value}): for a key of names and a
     non-mapping value the Option then finds exactly that value … *)
@@ -75,7 +193,7 @@ Print Assumptions C04_set_keeps_other_keys.
 (** … and it is the dictionary [set_dotted_key] + [mix] build (the input being unmodified is a
     statement about Python object identity: decided by snapshots in the harness). *)
 Theorem C04_set_is_mix_of_singleton : forall k v,
-  k <> [] -> set_dotted k v [] = Some (as_dict (single k v)).
+  k <> [] -> set_dotted k v [] = Some (as_dict (BaseProofs.single k v)).
 Proof. exact set_dotted_nil. Qed.
 Print Assumptions C04_set_is_mix_of_singleton.
 
@@ -92,10 +210,54 @@ Example C04_falsy_values_win :
     | _, _ => false
     end) falsy = true.
 Proof. vm_compute. reflexivity. Qed.
+Print Assumptions C04_falsy_values_win.
+
+(** every falsy value meets the hypotheses of [C04_present_plain_escfree_value_wins] *)
+Example C04_falsy_values_are_plain :
+  forallb (fun v => plain_json v && esc_free v)
+          [JNull; JBool false; JInt 0; JStr []; JList []; JObj []; JList [JStr []; JObj []]] = true.
+Proof. vm_compute. reflexivity. Qed.
+Print Assumptions C04_falsy_values_are_plain.
+
+(** domains, computed: container domain [0, 1] — the falsy member 0 is returned, 3 is refused
+    with a domain error, and so is a DEFAULT outside the domain; predicate domain (== 1) — 1 is
+    returned, 0 refused; the domain given as an Option is read from the same dictionary *)
+Example C04_domain_instances :
+  let ev (t : ftable) (e : expr) (o : dict) := fst (eval_nc (ucall_of t) 10 e o) in
+  let K := [SName 20]%N in
+  let dom01 := Some (EValue (VJ (JList [JInt 0; JInt 1]))) in
+  let pred := Some (EValue (VF 100 [] [])) in
+  let t := [(100%N, FEq (VJ (JInt 1)))] in
+  ev [] (EOption K None dom01) [(SName 20, JInt 0)]%N = Ok (VJ (JInt 0)) /\
+  ev [] (EOption K None dom01) [(SName 20, JInt 3)]%N = Err CDomain true /\
+  ev [] (EOption K (Some (EValue (VJ (JInt 7)))) dom01) [] = Err CDomain true /\
+  ev [] (EOption K (Some (EValue (VJ (JInt 1)))) dom01) [] = Ok (VJ (JInt 1)) /\
+  ev t (EOption K None pred) [(SName 20, JInt 1)]%N = Ok (VJ (JInt 1)) /\
+  ev t (EOption K None pred) [(SName 20, JInt 0)]%N = Err CDomain true /\
+  ev [] (EOption K None (Some (EOption [SName 21]%N None None)))
+        [(SName 20, JInt 5); (SName 21, JList [JInt 5])]%N = Ok (VJ (JInt 5)) /\
+  ev [] (EOption K None (Some (EOption [SName 21]%N None None)))
+        [(SName 20, JInt 5); (SName 21, JList [JInt 6])]%N = Err CDomain true.
+Proof. vm_compute. repeat split; reflexivity. Qed.
+Print Assumptions C04_domain_instances.
+
+(** Option.set then evaluate, computed: nested name key, falsy value, other keys intact *)
+Example C04_set_then_evaluate_instance :
+  let k := [SName 20; SName 21]%N in
+  let o := [(SName 20, JObj [(SName 22, JInt 4)]); (SName 23, JStr [])]%N in
+  forallb (fun v =>
+    match fst (eval_nc (ucall_of []) 10 (EOption k None None) (set_option k v o)),
+          fst (eval_nc (ucall_of []) 10 (EOption [SName 20; SName 22]%N None None) (set_option k v o)) with
+    | Ok (VJ a), Ok (VJ b) => json_eqb a v && json_eqb b (JInt 4)
+    | _, _ => false
+    end) [JNull; JBool false; JInt 0; JStr []; JList []] = true.
+Proof. vm_compute. reflexivity. Qed.
+Print Assumptions C04_set_then_evaluate_instance.
 
 (** List-index keys cannot be *set* (finding D10): [set_dotted_key] writes the string '0'. *)
-Example C04_set_list_index_refuted :
+Theorem C04_set_list_index_refuted :
   let k := [SName 30; SIdx 0]%N in
   let o := [(SName 30, JList [JInt 1; JInt 2])]%N in
   lookup k (JObj (set_option k (JInt 9) o)) = Absent.
 Proof. vm_compute. reflexivity. Qed.
+Print Assumptions C04_set_list_index_refuted.
